@@ -56,6 +56,30 @@ func genC14(t *rapid.T) C14Case {
 	}
 	fi := rapid.IntRange(0, n-1).Draw(t, "plantFile")
 	toks := toksPerFile[fi]
+	// string literals of the planted file may hold quote characters of the other kind, escaped quotes
+	// or be long strings: the cursor's line then carries an odd number of `"` or `'` in plain code
+	qs := rapid.IntRange(0, 5).Draw(t, "quoteStyle")
+	strLits := []string{"", "\"it's\"", "'say \"hi'", "\"a \\\" b\"", "[[it's \"x]]", "'x\\''"}
+	if qs > 0 {
+		for i := range toks {
+			tx := toks[i].Text
+			if len(tx) >= 2 && tx[0] == '"' && tx[len(tx)-1] == '"' && !strings.ContainsAny(tx[1:len(tx)-1], "\\\"'") {
+				in := tx[1 : len(tx)-1]
+				switch qs {
+				case 1:
+					toks[i].Text = "\"it's " + in + "\""
+				case 2:
+					toks[i].Text = "'say \"" + in + "'"
+				case 3:
+					toks[i].Text = "\"a \\\" " + in + "\""
+				case 4:
+					toks[i].Text = "[[it's \"" + in + "]]"
+				case 5:
+					toks[i].Text = "'" + in + "\\''"
+				}
+			}
+		}
+	}
 	var bounds []int
 	for i, tk := range toks {
 		if tk.NL {
@@ -66,6 +90,10 @@ func genC14(t *rapid.T) C14Case {
 	plant := func(at int) ([]luagen.Tok, int) {
 		ins := []luagen.Tok{{Text: "local", Var: luagen.VarNone, NL: true, Indent: 1, SelfOf: -1}, {Text: "zq", Var: luagen.VarNone, SelfOf: -1},
 			{Text: "=", Var: luagen.VarNone, SelfOf: -1}, {Text: c14Prefix + tail, Var: luagen.VarNone, SelfOf: -1}}
+		if qs > 0 {
+			// local zq = "it's" .. PREFIX
+			ins = append(ins[:3:3], luagen.Tok{Text: strLits[qs], Var: luagen.VarNone, SelfOf: -1}, luagen.Tok{Text: "..", Var: luagen.VarNone, SelfOf: -1}, ins[3])
+		}
 		out := append([]luagen.Tok{}, toks[:at]...)
 		out = append(out, ins...)
 		if at < len(toks) {
@@ -73,7 +101,7 @@ func genC14(t *rapid.T) C14Case {
 			rest[0].NL = true
 			out = append(out, rest...)
 		}
-		return out, at + 3
+		return out, at + len(ins) - 1
 	}
 	// second placement: the prefix takes the place of a variable read anywhere in an expression (an
 	// until / while / if condition, a call argument, a for bound, a return value, a table field ...)
